@@ -9,15 +9,47 @@ import (
 )
 
 func init() {
-	regSpec(scen.Core)
-	regSpec(scen.Basket)
-	regSpec(scen.Market)
-	regSpec(scen.BridgeSpec)
-	regSpec(scen.Large)
+	for _, f := range []func() scen.Spec{scen.Core, scen.Basket, scen.Market, scen.BridgeSpec, scen.Large, scen.Expiry, scen.GovPool, scen.BasketLarge} {
+		regSpec(f)
+	}
+	shared := func() []scen.Spec {
+		return []scen.Spec{scen.Core(), scen.Basket(), scen.Market(), scen.BridgeSpec()}
+	}
 	Registry["C01"] = func(tier string) int {
-		return engineA("C01", tier,
-			[]scen.Spec{scen.Core(), scen.Basket(), scen.Market(), scen.BridgeSpec(), scen.Large()},
+		return engineA("C01", tier, append(shared(), scen.Large()),
 			func() []explore.Monitor { return []explore.Monitor{&mon.C01{}} },
 			budget(tier, 100*time.Second, 15*time.Minute))
+	}
+	Registry["C02"] = func(tier string) int {
+		return engineA("C02", tier, shared(),
+			func() []explore.Monitor { return []explore.Monitor{&mon.C02{}} },
+			budget(tier, 100*time.Second, 15*time.Minute))
+	}
+	Registry["C03"] = func(tier string) int {
+		return engineA("C03", tier, append(shared(), scen.GovPool()),
+			func() []explore.Monitor {
+				return []explore.Monitor{&mon.C03{FeePool: scen.FeePool.String(), Authority: scen.G.String()}}
+			},
+			budget(tier, 100*time.Second, 15*time.Minute))
+	}
+	Registry["C04"] = func(tier string) int {
+		return engineA("C04", tier, shared(),
+			func() []explore.Monitor { return []explore.Monitor{&mon.C04{}} },
+			budget(tier, 100*time.Second, 15*time.Minute))
+	}
+	Registry["C05"] = func(tier string) int {
+		return engineA("C05", tier, []scen.Spec{scen.Basket(), scen.BasketLarge()},
+			func() []explore.Monitor { return []explore.Monitor{&mon.C05{}} },
+			budget(tier, 80*time.Second, 12*time.Minute))
+	}
+	Registry["C06"] = func(tier string) int {
+		return engineA("C06", tier, []scen.Spec{scen.Market(), scen.Expiry()},
+			func() []explore.Monitor { return []explore.Monitor{&mon.C06{}} },
+			budget(tier, 80*time.Second, 12*time.Minute))
+	}
+	Registry["C12"] = func(tier string) int {
+		return engineA("C12", tier, []scen.Spec{scen.Expiry(), scen.Market()},
+			func() []explore.Monitor { return []explore.Monitor{&mon.C12{}} },
+			budget(tier, 80*time.Second, 12*time.Minute))
 	}
 }
